@@ -496,8 +496,11 @@ size_t varintAdaptiveDecode(const uint8_t *src, uint64_t *values,
     }
 
     case VARINT_ADAPTIVE_DICT: {
-        /* Dict encoding is self-describing, pass large buffer size */
-        decoded = varintDictDecodeInto(data, 1024 * 1024, values, maxCount);
+        /* Dict encoding is self-describing; the encoding of at most
+         * maxCount values is never longer than varintAdaptiveMaxSize
+         * (a fixed 1 MiB here made longer encodings undecodable) */
+        decoded = varintDictDecodeInto(
+            data, varintAdaptiveMaxSize(maxCount) - 1, values, maxCount);
         break;
     }
 
